@@ -15,6 +15,9 @@ mod c05;
 mod c06;
 mod big;
 mod c08;
+mod serde_abs;
+mod types_gen;
+mod serde;
 mod c15;
 mod datum;
 mod c12;
@@ -66,6 +69,8 @@ fn main() {
         "c06-replay" => c06::replay_case(&cfg),
         "c15" => c15::run(&cfg),
         "c15-replay" => c15::replay_case(&cfg),
+        "serde" => serde::run(&cfg),
+        "serde-replay" => serde::replay_case(&cfg),
         "c01" => c01::run(&cfg),
         "c01-replay" => c01::replay_case(&cfg),
         x => {
